@@ -27,6 +27,10 @@ SENTINELS = [["f"], ["a", "f"], ["b", "f"]]
 STYLES = ["slash", "backslash", "mixed"]
 SCRIPT_OPS = ["loadFile", "preprocessFile", "preprocessFileLineNumbers", "execVM"]
 INCLUDE_OPS = ["include", "include2"]
+# directory names of the physical roots: the root ids r1, r2, r3 of the model are symbolic; "rev" names them so that the root used
+# first is NOT the smallest path (the order of mapping, not of the names, must decide).  Every root has an unmapped sibling
+# directory <name>x (request base "r1x" ...), i.e. a directory outside all roots whose path merely starts with the root's path.
+NAMINGS = {"fwd": {"r1": "r1", "r2": "r2", "r3": "r3"}, "rev": {"r1": "w3", "r2": "w2", "r3": "w1"}}
 NOCUR = {"has": False, "virt": [], "root": "", "rel": []}
 
 
@@ -38,7 +42,7 @@ def tla_set(xs):
 
 
 def mc_cfg(name, mode, variant="reference", emit=False, maxmaps=2, nroots=2, prefixes=("", "a", "ab", "b"),
-           shapes=("empty", "full", "deep"), maxlen=3, bases=("", "out", "r1", "r2", "r3"), invariants=None):
+           shapes=("empty", "full", "deep"), maxlen=3, bases=("", "out", "r1", "r2", "r3", "r1x", "r2x", "r3x"), invariants=None):
     inv = invariants if invariants is not None else ["InvContained", "InvTraversal", "InvPhysical", "InvFirstRoot", "InvDeepest", "InvReference",
                                                      "InvContent", "InvDeterministic", "InvRefIsFile"]
     cfg = """SPECIFICATION Spec
@@ -80,10 +84,24 @@ def virt_text(path):
     return "/" + "/".join(path)
 
 
-def render(req, cdir, style, avoid_comment):
+def dirname_of(case, root):
+    return NAMINGS[case.get("naming", "fwd")][root]
+
+
+def base_dir(case, cdir, base):
+    if base == "out":
+        return cdir
+    if base.endswith("x"):
+        return cdir + "/" + dirname_of(case, base[:-1]) + "x"
+    return cdir + "/" + dirname_of(case, base)
+
+
+def render(case, cdir, avoid_comment):
     """request -> text. style: slash | backslash | mixed (alternating, starting with /).
     avoid_comment: an #include line is scanned for // comments by the preprocessor (C13 territory),
     so a rendering that would contain // is switched to the mixed style."""
+    req, style = case["req"], case["style"]
+
     def build(st):
         n = [0]
 
@@ -98,7 +116,7 @@ def render(req, cdir, style, avoid_comment):
         if req["base"] == "":
             out = sep() if req["abs"] else ""
         else:
-            out = cdir if req["base"] == "out" else cdir + "/" + req["base"]
+            out = base_dir(case, cdir, req["base"])
             if segs:
                 out += sep()
         for i, s in enumerate(segs):
@@ -125,18 +143,21 @@ class Materialiser:
     def dir_for(self, case):
         cur = case["cur"]
         cur2 = case.get("cur2")
-        key = json.dumps([case["trees"], [cur["root"], cur["rel"][:-1]] if cur["has"] else None,
+        key = json.dumps([case.get("naming", "fwd"), case["trees"], [cur["root"], cur["rel"][:-1]] if cur["has"] else None,
                           [cur2["root"], cur2["rel"][:-1]] if cur2 else None], sort_keys=True)
         d = self.made.get(key)
         if d is None:
             d = os.path.join(self.base, "t%d" % len(self.made))
             self.made[key] = d
             for r in ROOTS:
-                os.makedirs(os.path.join(d, r), exist_ok=True)
+                dn = dirname_of(case, r)
+                os.makedirs(os.path.join(d, dn), exist_ok=True)
                 for rel in case["trees"][r]:
                     if rel[-1] in ("x", "y"):
                         continue
-                    self.write(os.path.join(d, r, *rel), 'diag_log "%s";\n' % token_of(r, rel))
+                    self.write(os.path.join(d, dn, *rel), 'diag_log "%s";\n' % token_of(r, rel))
+                for rel in SENTINELS:   # the sibling directory <name>x: outside, although its path starts with the root's path
+                    self.write(os.path.join(d, dn + "x", *rel), 'diag_log "%s";\n' % token_of("OUT", [r + "x"] + rel))
             for rel in SENTINELS:   # outside every root: must never come back
                 self.write(os.path.join(d, *rel), 'diag_log "%s";\n' % token_of("OUT", rel))
         return d
@@ -160,27 +181,27 @@ def driver_case(case, mat):
     if case.get("cur2"):
         # two includers in different directories with the same directive, one preprocessor run
         cur2 = case["cur2"]
-        inc_text = render(case["req"], cdir, case["style"], True)
+        inc_text = render(case, cdir, True)
         op = {"op": "includePair", "path": inc_text}
         for c, nm, sfx in ((cur, xname, ""), (cur2, "y" + case["id"], "2")):
             rel = c["rel"][:-1] + [nm]
-            mat.write(os.path.join(cdir, c["root"], *rel), '#include "%s"\n' % inc_text)
+            mat.write(os.path.join(cdir, dirname_of(case, c["root"]), *rel), '#include "%s"\n' % inc_text)
             op["from" + sfx] = virt_text(c["virt"][:-1] + [nm])
-            op["fromPhys" + sfx] = "/".join([c["root"]] + rel)
+            op["fromPhys" + sfx] = "/".join([dirname_of(case, c["root"])] + rel)
         ops.append(op)
     elif cur["has"]:
-        inc_text = render(case["req"], cdir, case["style"], True)
+        inc_text = render(case, cdir, True)
         xrel = cur["rel"][:-1] + [xname]
-        mat.write(os.path.join(cdir, cur["root"], *xrel), '#include "%s"\n' % inc_text)
+        mat.write(os.path.join(cdir, dirname_of(case, cur["root"]), *xrel), '#include "%s"\n' % inc_text)
         frm = virt_text(cur["virt"][:-1] + [xname])
-        ops.append({"op": "include", "path": inc_text, "from": frm, "fromPhys": "/".join([cur["root"]] + xrel)})
+        ops.append({"op": "include", "path": inc_text, "from": frm, "fromPhys": "/".join([dirname_of(case, cur["root"])] + xrel)})
         ops.append({"op": "include2", "path": inc_text, "from": frm})
     else:
-        text = render(case["req"], cdir, case["style"], False)
+        text = render(case, cdir, False)
         for o in SCRIPT_OPS:
             ops.append({"op": o, "path": text})
     return {"id": case["id"], "dir": cdir,
-            "mappings": [{"phys": m["root"], "virt": virt_text(m["virt"])} for m in case["mappings"]],
+            "mappings": [{"phys": dirname_of(case, m["root"]), "virt": virt_text(m["virt"])} for m in case["mappings"]],
             "ops": ops}
 
 
@@ -222,7 +243,8 @@ def trace_lines(case, dcase, events):
 def describe(case, dcase):
     o = dcase["ops"][0]
     req = 'request "%s"' % o.get("path", "") + (" included from %s" % o["from"] if "from" in o else "") + (" and from %s" % o["from2"] if "from2" in o else "")
-    maps = ", ".join("%s->%s" % (virt_text(m["virt"]), m["root"]) for m in case["mappings"])
+    maps = ", ".join("%s->%s" % (virt_text(m["virt"]), m["root"] + ("(dir %s)" % dirname_of(case, m["root"]) if case.get("naming", "fwd") != "fwd" else ""))
+                     for m in case["mappings"])
     trees = ", ".join("%s:{%s}" % (r, " ".join("/".join(p) for p in case["trees"][r])) for r in ROOTS if case["trees"][r])
     return "mappings [%s] trees [%s] %s" % (maps, trees, req)
 
@@ -249,7 +271,7 @@ def run_cases(cases, wdir, tag, mat, chunks=None):
 
 def weight(case):
     return (len(case["mappings"]), len(case["req"]["segs"]), (2 if case.get("cur2") else 1) if case["cur"]["has"] else 0, 0 if case["req"]["base"] == "" else 1,
-            0 if case["style"] == "slash" else 1, sum(len(case["trees"][r]) for r in ROOTS))
+            0 if case["style"] == "slash" else 1, 0 if case.get("naming", "fwd") == "fwd" else 1, sum(len(case["trees"][r]) for r in ROOTS))
 
 
 def run(rep, tier, seed, replay):
@@ -260,7 +282,9 @@ def run(rep, tier, seed, replay):
     rep.assumptions += [
         "small scope: <=3 mappings over the virtual prefixes /, /a, /a/b, /b; <=3 disjoint physical roots; trees from 4 shapes over "
         "f, a/f, b/f, a/b/f; request segments over {a,b,f,..,''} (<=4), leading separator or not, slash/backslash/mixed rendering, "
-        "absolute physical paths into a root, above a root and outside all roots",
+        "absolute physical paths into a root, above a root, outside all roots and into an unmapped sibling directory whose name "
+        "starts with a root's name (<root>x); the directory names of the roots are chosen so that in half of the cases the root "
+        "mapped first is not the smallest path",
         "ResolvesToReference is asserted only for requests whose '..' segments are applied inside the virtual tree (nodes of mapped "
         "prefixes); for '..' inside the unmatched remainder and for absolute physical paths that lie inside a mapped root only "
         "Contained is asserted (the statement fixes nothing more)",
@@ -322,7 +346,7 @@ def run(rep, tier, seed, replay):
             q = c["req"]
             roots = [m["root"] for m in c["mappings"]]
             sig = "%s/%s obs=%s req=%s%s%s%s" % (b["why"], b["op"], ob[0]["k"] if ob else "crash(" + lines[b["id"]]["crash"] + ")",
-                                               ("phys-" + ("out" if q["base"] == "out" else "root")) if q["base"] else ("abs" if q["abs"] else "rel"),
+                                               ("phys-" + ("out" if q["base"] == "out" else "sibling" if q["base"].endswith("x") else "root")) if q["base"] else ("abs" if q["abs"] else "rel"),
                                                " dotdot" if ".." in q["segs"] else "", " backslash" if c["style"] != "slash" and q["segs"] else "",
                                                " root-mapped-twice" if len(set(roots)) < len(roots) else "")
             ent = clusters.setdefault(sig, {"count": 0, "witness": None, "w": None})
@@ -375,7 +399,7 @@ def generate(rep, tier, rng):
     t0 = time.time()
     # ---- 1. design check: the reference satisfies every formula on the complete product
     r = vlib.tlc("Vfs_MC", mc_cfg("mc_ref", "product", maxmaps=2, nroots=2, shapes=("empty", "full") if quick else ("empty", "full", "deep"),
-                                  maxlen=3, bases=("", "out", "r1", "r3")), workers=vlib.NCPU, timeout_s=1500, xmx="16g")
+                                  maxlen=3, bases=("", "out", "r1", "r3", "r1x")), workers=vlib.NCPU, timeout_s=1500, xmx="16g")
     if not r.ok:
         raise vlib.MachineryError("design check: the reference violates %s\n%s" % (r.violated, (r.error or r.trace_text)[:1500]))
     rep.add_tlc(r, "Vfs_MC reference: all formulas on the complete product (<=2 mappings, requests <=3)")
@@ -406,7 +430,7 @@ def generate(rep, tier, rng):
     npairs = 0
     for nm, prefixes in (("a", ("", "a")), ("ab", ("", "ab"))):
         g = vlib.tlc("Vfs_MC", mc_cfg("gen_small_" + nm, "product", emit=True, maxmaps=2, nroots=2, prefixes=prefixes, shapes=("empty", "full"),
-                                      maxlen=2 if quick else 3, bases=("",) if quick else ("", "out", "r1", "r3"), invariants=[]),
+                                      maxlen=2 if quick else 3, bases=("",) if quick else ("", "out", "r1", "r3", "r1x"), invariants=[]),
                      workers=vlib.NCPU, timeout_s=1500, xmx="8g")
         if not g.ok:
             raise vlib.MachineryError("generator (small product) failed: %s" % (g.error or g.violated))
@@ -416,7 +440,7 @@ def generate(rep, tier, rng):
         for c in small:
             i = len(cases)
             cases.append({"id": "s%d" % i, "mappings": c["mappings"], "trees": c["trees"], "req": dict(c["req"], style=STYLES[i % 3]),
-                          "cur": c["cur"], "style": STYLES[i % 3]})
+                          "cur": c["cur"], "style": STYLES[i % 3], "naming": ("fwd", "rev")[(i // 3) % 2]})
             if c["cur"]["has"] and not c["req"]["abs"] and c["req"]["base"] == "":
                 groups.setdefault(json.dumps([c["mappings"], c["trees"], c["req"]], sort_keys=True), []).append(c)
         # pairs: the same relative directive in two includers of different directories, ONE preprocessor run (quick: neighbours
@@ -429,11 +453,11 @@ def generate(rep, tier, rng):
                         continue
                     i = len(cases)
                     cases.append({"id": "s%d" % i, "mappings": c1["mappings"], "trees": c1["trees"], "req": dict(c1["req"], style=STYLES[i % 3]),
-                                  "cur": c1["cur"], "cur2": second_includer(c2["cur"]), "style": STYLES[i % 3]})
+                                  "cur": c1["cur"], "cur2": second_includer(c2["cur"]), "style": STYLES[i % 3], "naming": ("fwd", "rev")[(i // 3) % 2]})
                     npairs += 1
     # absolute physical paths into the roots of nested prefixes added parent-first and child-first (script operators)
     g = vlib.tlc("Vfs_MC", mc_cfg("gen_small_phys", "product", emit=True, maxmaps=2, nroots=2, prefixes=("a", "ab"), shapes=("empty", "full"),
-                                  maxlen=2, bases=("r1", "r2"), invariants=[]), workers=vlib.NCPU, timeout_s=1500, xmx="8g")
+                                  maxlen=2, bases=("r1", "r2", "r1x"), invariants=[]), workers=vlib.NCPU, timeout_s=1500, xmx="8g")
     if not g.ok:
         raise vlib.MachineryError("generator (small physical product) failed: %s" % (g.error or g.violated))
     rep.add_tlc(g, "Vfs_MC generator: complete product of physical requests x configurations over the prefixes /a, /a/b")
@@ -441,7 +465,7 @@ def generate(rep, tier, rng):
         if len(c["trees"]["r3"]) > 0 and not c["cur"]["has"]:
             i = len(cases)
             cases.append({"id": "s%d" % i, "mappings": c["mappings"], "trees": c["trees"], "req": dict(c["req"], style=STYLES[i % 3]),
-                          "cur": c["cur"], "style": STYLES[i % 3]})
+                          "cur": c["cur"], "style": STYLES[i % 3], "naming": ("fwd", "rev")[(i // 3) % 2]})
     rep.extra["small_space_pairs"] = npairs
     rep.exhaustive = True
     rep.extra["small_space_cases"] = len(cases)
@@ -474,7 +498,7 @@ def generate(rep, tier, rng):
         q = rng.choice(req_by[rng.choice(req_keys)])
         cur = rng.choice(c["currents"]) if (c["currents"] and rng.random() < 0.4) else NOCUR
         st = rng.choice(STYLES)
-        case = {"id": "g%d" % i, "mappings": c["mappings"], "trees": c["trees"], "req": dict(q, style=st), "cur": cur, "style": st}
+        case = {"id": "g%d" % i, "mappings": c["mappings"], "trees": c["trees"], "req": dict(q, style=st), "cur": cur, "style": st, "naming": rng.choice(("fwd", "rev"))}
         if cur["has"] and q["base"] == "" and not q["abs"] and rng.random() < 0.5:
             others = [o for o in c["currents"] if o["virt"][:-1] != cur["virt"][:-1]]
             if others:
